@@ -53,7 +53,7 @@ def r_critical(A, ctx, scope, rule="R-CRITICAL"):
         raise AnalysisError("skglm.utils.data._alpha_max_group_lasso missing")
     dcls = _cls(A, A.prog.datafits, "QuadraticGroup")
     pcls = _cls(A, A.prog.penalties, "WeightedGroupL2")
-    grp_ptr, grp_idx = Vec([0, 1, 3]), Vec([0, 1, 2])
+    grp_ptr, grp_idx = Vec([0, 1, 3]), Vec([2, 0, 1])      # non-contiguous groups {2}, {0, 1}
     for tag, wvals in (("weights>0", (1.3, 0.7)), ("zero weight on the large group", (1.3, 0.0)),
                        ("zero weight on the first group", (0.0, 0.7))):
         key = f"{f.fq}::{tag}"
@@ -69,7 +69,7 @@ def r_critical(A, ctx, scope, rule="R-CRITICAL"):
             zero_w = Vec([const(0)] * 3)
             zero_Xw = Vec([const(0)] * 3)
             best = None
-            for g, feats in enumerate(([0], [1, 2])):
+            for g, feats in enumerate(([2], [0, 1])):
                 grad = L.call_function(dcls.find_method("gradient_g"), [X, y, zero_w, zero_Xw, g], self_obj=dobj)
                 gn = L.norm2(Vec(grad))
                 # slope of value() at 0 along a unit direction of block g
